@@ -2,7 +2,7 @@
 import copy
 import random
 
-from harness import core, tlc, tracecheck, gen_storages as GS
+from harness import apalache, core, tlc, tracecheck, gen_storages as GS
 from harness.proxies import TapeMismatch
 
 PID = "C07"
@@ -53,6 +53,19 @@ def run(tier, seed):
     ctx.evaluations += nrep
     ctx.sample({"direction": "A", "behaviour": states[-1]})
 
+    # streams of ANY length (capacity <= 6): inductive invariants discharged by Apalache on the same kernels
+    for cfg in ("sliding", "reservoir"):
+        r = tlc.require_ok(tlc.run("MC_StoreIndTLC", "MC_StoreIndTLC_" + cfg, tag="c07ind"), cfg)
+        if r.status != "ok":
+            raise tlc.TLCError("StoreInd(%s) violates %s" % (cfg, r.violated))
+        ctx.add_tlc("MC_StoreIndTLC_%s: KernelIsStorages (StoreInd's successors = Storages!Successors) IndInv C07" % cfg, r)
+    apalache.inductive(ctx, "MC_StoreInd", "CInitSliding", "IndInit", "IndInv", "C07", "interval / sequence storage, Cap in 1..6",
+                       negative_cinit="CInitSlidingBug")
+    if not quick:
+        apalache.inductive(ctx, "MC_StoreInd", "CInitReservoir", "IndInit", "IndInv", "C07", "reservoirs, every draw outcome, Cap in 1..6",
+                           negative_cinit="CInitReservoirBug")
+    else:
+        apalache.inductive(ctx, "MC_StoreInd", "CInitReservoir", "IndInit", "IndInv", "C07", "reservoirs, every draw outcome, Cap in 1..6")
     # direction B: seeded runs of all five classes, TLC infers the reservoir outcome of every step
     traces = []
     nruns = 60 if quick else 600
